@@ -44,6 +44,8 @@ def run(ctx):
     ctx.run_rule("K3M1", r_consts.rule_K3_M1, cfgs)
     import r_cbudget
     ctx.run_rule("PB", r_cbudget.rule_PB)
+    import r_round
+    ctx.run_rule("R1cv", r_round.rule_R1_cvec)
     import r_asmsym
     ctx.run_rule("R1asm1", r_asmsym.rule_R1asm_single)
     ctx.run_rule("R1asmH", r_asmsym.rule_R1asm_hash)
